@@ -34,10 +34,23 @@ def run(run, tier):
     res = GL.standard_run(run, EoN, sim, 'SIR', tier)
     SC.report(run, 'C01', 'Gillespie_SIR', res, 'Model/Gillespie.v', 'Props/C01.v')
     extra = {'distribution': res.stats, 'mismatches': len(res.mism), 'oracle_failures': len(res.oracle_bad)}
+    # fast_SIR half: the event-driven model (Model/EventSIR.v, theorems Props/C11.v) under the scripted source,
+    # every expovariate rate / binomial(n,p) / sample(pop,k) compared, Dijkstra oracle on the implementation's own draws
     try:
         from . import esir_lib as EL
-        if hasattr(EL, 'c01_fast_part'):
-            extra['fast_SIR'] = EL.c01_fast_part(run, EoN, sim, tier)
+        okf, logf = C.build_driver(EL.COMP)
+        if okf:
+            resf = SC.Result()
+            n = 1200 if tier == 'quick' else 20000
+            casesf = [EL.gen_case(run.rng, kind='FSIR', nmax=8 if i % 3 else 12, malformed=(i % 40 == 0)) for i in range(n)]
+            SC.run_cases(EL, EoN, sim, casesf, ['W ' + GL.R.ent_tokens(run.rng) for _ in casesf], EL.oracle,
+                         lambda case, m, impl: m['status'] == 'OK' and len(m.get('rows', [])) >= 3, resf, 'fast_SIR')
+            SC.report(run, 'C01', 'fast_SIR', resf, 'Model/EventSIR.v', 'Props/C11.v')
+            extra['fast_SIR'] = {'cases': resf.n, 'mismatches': len(resf.mism), 'oracle_failures': len(resf.oracle_bad), 'distribution': resf.stats,
+                                 'theorems': 'Props/C11.v: fast_nonmarkov_is_esir_det, esir_first_passage (first-passage percolation for the delays it drew); CTMC lift cited'}
+            res.n += resf.n; res.nontrivial += resf.nontrivial; res.distinct |= resf.distinct
+        else:
+            run.violation('C01/fast_SIR/build', 'extracted event-driven model does not build: ' + logf[-400:], {'log': logf[-2000:]}, no_input=True)
     except ImportError:
         extra['fast_SIR'] = 'event-driven component not built yet'
     if not props['ok']:
